@@ -348,7 +348,7 @@ Fixpoint eval (en : genv) (e : gexpr) {struct e} : res gval :=
       let? va := eval en a in let? vlo := eval en lo in let? vhi := eval en hi in let? vst := eval en st in
       slice_val va vlo vhi vst
   (* constructs that do not occur in class Weaver (they belong to the function-level interpreter, Model/GlueFun.v) *)
-  | GList _ | GIfExp _ _ _ | GFloat _ _ | GNeg _ => Raise OtherExn
+  | GList _ | GIfExp _ _ _ | GFloat _ _ | GNeg _ | GListComp _ _ _ => Raise OtherExn
   end.
 
 Inductive outcome := ONormal | OReturn (v : gval) | ORaise (e : exn).
